@@ -78,10 +78,10 @@ def check (g : Mon) (opl obs : String) : Mon × Option String :=
         if k.1 = 0 then (false, "empty_key", g.rel)
         else if !allowed r t then (false, "not_allowed", g.rel)
         else if g.rel.contains (k, t, r) then (false, "dup", g.rel)
-        else if !(keysOf g t).contains k ∧ (keysOf g t).length ≥ 50 then (false, "limit.keys_per_topic", g.rel)
-        else if (pairsOf g k).length ≥ 20 then (false, "limit.registries_per_key", g.rel)
-        else (true, (if (pairsOf g k).length = 19 then "limit.registries_per_key"
-                     else if !(keysOf g t).contains k ∧ (keysOf g t).length = 49 then "limit.keys_per_topic"
+        else if !(keysOf g t).contains k ∧ (keysOf g t).length ≥ 50 then (false, "limit.allow_key.keys_per_topic", g.rel)
+        else if (pairsOf g k).length ≥ 20 then (false, "limit.allow_key.registries_per_key", g.rel)
+        else (true, (if (pairsOf g k).length = 19 then "limit.allow_key.registries_per_key"
+                     else if !(keysOf g t).contains k ∧ (keysOf g t).length = 49 then "limit.allow_key.keys_per_topic"
                      else "valid"), g.rel ++ [(k, t, r)])
       | .remove k r t =>
         if g.rel.contains (k, t, r) then (true, "present", g.rel.erase (k, t, r)) else (false, "absent", g.rel)
@@ -94,8 +94,8 @@ def check (g : Mon) (opl obs : String) : Mon × Option String :=
       else g'
     let accept : Option String :=
       if ok = expect then none
-      else if ok then some s!"site=keys.{why}_accepted the registry accepted an operation the plain relation refuses ({why})"
-      else some s!"site=keys.{why}_refused the registry refused an operation the plain relation (with its documented limits) accepts"
+      else if ok then some (acceptedSite "keys" why)
+      else some (refusedSite "keys" why)
     -- getters against the plain relation
     let Ts := (parts ";" (kvS ws "T")).filterMap (fun e =>
       match e.splitOn ":" with
